@@ -29,14 +29,19 @@ CLAIMS.update({
             "text": "Layer 1: the bit-vector primitives (fill/clear/set/get/index_of) are verified word-exactly against reference masks. Layer 2: JitAllocatorBlock::mark_allocated_area / "
                     "mark_released_area / mark_shrunk_area / clear_block are verified to preserve the representation invariant wf_block (used/stop consistency, popcount == area_used, Empty <=> only "
                     "padding used, every free granule inside the search window, incremental and clean caches exact) and to change exactly the named run and the pool accounting - an inductive "
-                    "step over arbitrary histories, for every well-formed block state. Bounded in the bit-vector length (64 granules quick / 128 thorough). JitAllocator::alloc/release/shrink "
-                    "themselves (block list, RB-tree, range search, virtual memory) are not yet under contract: partial.",
+                    "step over arbitrary histories, for every well-formed block state. Bounded in the bit-vector length (64 granules quick / 128 thorough). Layer 3, shrink path: JitAllocatorImpl_shrink "
+                    "(used by shrink() and write()) is verified modularly over mark_shrunk_area: sizes that are zero or larger than the span are rejected without change, the span keeps its "
+                    "start and >= new_size bytes, exactly the granules behind it are given back, and the pattern fill covers exactly that memory in the writable view of the same block. "
+                    "JitAllocator::alloc/release/query/reset (block list, RB-tree, range search, virtual memory) are not under contract: partial.",
             "note": COMMON_NOTE + " Bit-vector functions are inlined into the block units (their bodies are re-verified in context)."},
     "C18": {"category": "model_checking",
-            "text": "Arena::_alloc_oneshot (block chain stays free of dangling links, result aligned/inside a fresh block, failure leaves the bump pointer), String::prepare (three "
-                    "representations, size/capacity/NUL invariant, append keeps contents, failed allocation leaves the string untouched, old heap buffer freed exactly once) and the bit-vector "
-                    "primitives are under contract, for bounded heap shapes (<= 3 arena blocks, string buffers <= 40 bytes, vectors <= 2 words) and symbolic sizes. ArenaVector/Hash/Tree/List and "
-                    "the remaining String operations are not yet under contract: partial.",
+            "text": "Arena: _alloc_oneshot (block chain free of dangling links, result aligned/inside the new current block, failure leaves the bump pointer), _alloc_reusable (granted size = slot "
+                    "class or request, block addressable, aligned and disjoint from live memory, slot lists stay free memory), free_reusable/_release_dynamic (released block heads its class list; "
+                    "dynamic block unlinked and freed), reset. ArenaVector: reserve_fit/reserve_grow/reserve_additional/resize_fit/resize_grow keep size and contents, report a capacity that is "
+                    "backed by the block received, zero-fill exactly the new tail, return the old buffer with its size, and fail without change - against the allocator contract the arena units "
+                    "prove. String: prepare (three representations, size/capacity/NUL invariant, append keeps contents, old heap buffer freed exactly once), _op_string/_op_chars/_op_char/"
+                    "assign(Span)/pad_end/truncate against the textbook string. Bit-vector primitives. Bounded heap shapes (<= 3 arena blocks, buffers <= 16..48 bytes), sizes/counts symbolic. "
+                    "Partial: ArenaHash/Tree/List/Pool/BitSet, number/format String operations, arguments aliasing the string.",
             "note": COMMON_NOTE + " malloc/free: CBMC's model with --malloc-may-fail --malloc-fail-null; memcpy/memset: byte-loop stubs."},
 })
 CLAIMS.update({
@@ -44,8 +49,10 @@ CLAIMS.update({
             "text": "CodeHolder::bind_label is verified against: same-section references get the displacement label - site + rel written into exactly their field (through the proved write_offset "
                     "contract), other-section references are kept and tagged, relocation-carrying fixups rebase their payload exactly once, unrepresentable displacements return "
                     "kInvalidDisplacement and stay counted, the unresolved counter drops by exactly the resolved ones, invalid label/section/double bind are rejected without change. The offset "
-                    "codecs it relies on (encode_offset32/64, write_offset) are proved for all inputs. Bounded: 1 label, <= 2 pending fixups, 2 sections, 1 relocation. Partial: the reference sites "
-                    "inside the assemblers' _emit (which compute rel and choose the format), new_fixup and resolve_cross_section_fixups are not under contract.",
+                    "codecs it relies on (encode_offset32/64, write_offset) are proved for all inputs. CodeHolder::resolve_cross_section_fixups is verified likewise: every pending cross-section reference is patched with (target section offset + label "
+                    "offset) - (source section offset + site) + rel, overflowing or unrepresentable ones stay listed and counted, the count drops by exactly the resolved ones. "
+                    "Bounded: 1 label, <= 1 (quick) / 2 (thorough) pending fixups, 2 sections, 1 relocation. Partial: the reference sites inside the assemblers' _emit (which compute rel and "
+                    "choose the format) and new_fixup are not under contract.",
             "note": COMMON_NOTE},
     "C04": {"category": "model_checking",
             "text": "CodeHolder::relocate_to_base is verified per relocation entry: kAbsToAbs / kRelToAbs / kAbsToRel / kX64AddressEntry(rel32-reachable) patch exactly the value their type prescribes "
@@ -57,8 +64,9 @@ CLAIMS.update({
             "text": "ConstPool::add is verified against: returned offsets aligned to the constant's size and inside the pool, the pool only grows, pool alignment covers every constant, a new slot comes "
                     "from free space (a registered gap or beyond the old end) and the remaining registered gaps stay well-formed and disjoint from it, a dedup hit returns the existing offset "
                     "unchanged, invalid sizes are rejected without change, allocation failure is kOutOfMemory and never a NULL dereference. The red-black tree and arena are abstracted by ASSUMED "
-                    "contracts. Bounded gap lists; quick explores constant sizes <= 8, thorough all sizes. Partial: fill(), tree internals.",
-            "note": COMMON_NOTE + " Tree::get/insert/new_node_t and Arena::alloc_oneshot<Gap> are assumed contracts (trusted abstraction)."},
+                    "stubs. One unit per constant size (quick: 16, 64 and all invalid sizes; thorough: every size) over 0..2 registered gaps per class; pre/post only (no frame check) for add(). "
+                    "ConstPool::reset returns any pool to the constructed state. Partial: fill(), tree internals.",
+            "note": COMMON_NOTE + " Tree::get/insert/new_node_t and Arena::alloc_oneshot<Gap> are assumed stubs (trusted abstraction); ConstPool::add runs without goto-instrument's frame check."},
     "C01": {"category": "proof",
             "text": "Only the x86 byte-emission leaves are under contract: emit_immediate / emit_imm_byte_or_dword write exactly the requested number of little-endian bytes and advance the cursor by "
                     "it, emit_pp / emit_segment_override emit the architectural prefix byte or nothing (at most one scratch byte at the cursor). These are complete proofs of those helpers. The "
@@ -71,8 +79,9 @@ CLAIMS.update({
                     "error, all writes inside the destination), ConstPool::add (invalid size -> error, unchanged). Partial: the emit failure path and emitter state are not covered.",
             "note": COMMON_NOTE},
     "C15": {"category": "model_checking",
-            "text": "Roll-up of the allocation-failure obligations: malloc may return NULL (CBMC --malloc-may-fail --malloc-fail-null, or 'NULL or fresh' contracts) in Arena::_alloc_oneshot (NULL result, "
-                    "chain stays well-formed, bump pointer untouched), String::prepare (NULL result, string unchanged), ConstPool::add (kOutOfMemory, no NULL dereference). Partial: CodeHolder growth "
+            "text": "Roll-up of the allocation-failure obligations: malloc may return NULL (CBMC --malloc-may-fail --malloc-fail-null, or 'NULL or fresh' contracts) in Arena::_alloc_oneshot / _alloc_reusable (NULL result, "
+                    "chain stays well-formed, bump pointer untouched), String::prepare and the operations on it (string unchanged), ArenaVector growth (kOutOfMemory, vector unchanged), ConstPool::add "
+                    "(kOutOfMemory or the constant without its shared sub-constants, no NULL dereference). Partial: CodeHolder growth "
                     "paths, JitAllocator, builder/compiler passes are not covered; 'repeat after failure gives identical code' is not decided.",
             "note": COMMON_NOTE},
     "C16": {"category": "model_checking",
